@@ -20,8 +20,10 @@ CLAIMED={
  "C16":("exploration","One generated chain synced under three batchings by the real MultiEventSyncer; fired rows vs a canonical-chain reference.","§3 C16"),
  "C02":("exploration","Seeded search over block histories, eon states, restarts and faults through the real per-block processing; safety oracle on the trigger channel and on published share messages.","§3 C02"),
  "C19":("exploration","Seeded search over queues, slot triggers, restarts and message interleavings across 2-3 real Gnosis keyper stacks; identity selection vs reference, pointer arithmetic at quiescence.","§3 C19"),
+ "C20":("exploration","The real eon-public-key polling service on the fake clock against a generator committing 0-4 keys per tick, both publication modes, refusals, statement errors and restarts.","§3 C20"),
 }
 NOTES={
+ "C20":"keys are committed by the generator the way finalizeDKG commits them; pgsim fidelity",
  "C02":"safety only (as stated); keyper sets have increasing activation blocks; simeth/pgsim fidelity",
  "C19":"beacon API stubbed (proposer always registered); sequencer contract enforces minimum gas",
  "C15":"canonical chain fixed during one Sync; contracts emit a key once per chain and nothing before the sync start block; pgsim/simeth fidelity",
